@@ -18,8 +18,10 @@ class MachineryError(Exception):
     pass
 
 
-def java_cmd(module, workdir, workers=1, extra=(), heap="3g", deque=False):
+def java_cmd(module, workdir, workers=1, extra=(), heap="3g", deque=False, xss=None):
     cmd = ["java", "-XX:+UseParallelGC", f"-Xmx{heap}", f"-DTLA-Library={SPEC_DIR}"]
+    if xss:
+        cmd.append(f"-Xss{xss}")
     if deque:
         cmd.append("-Dtlc2.tool.queue.IStateQueue=StateDeque")
     cmd += ["-cp", JARS, "tlc2.TLC", "-workers", str(workers), "-metadir", str(Path(workdir) / "meta"),
@@ -32,7 +34,7 @@ def java_cmd(module, workdir, workers=1, extra=(), heap="3g", deque=False):
 STATS_RE = re.compile(r"(\d+) states generated, (\d+) distinct states found")
 
 
-def run_tlc(module_file, cfg_text, workdir, env=None, workers=1, timeout=600, extra=(), heap="3g"):
+def run_tlc(module_file, cfg_text, workdir, env=None, workers=1, timeout=600, extra=(), heap="3g", xss=None):
     """module_file: path of the .tla root module (copied next to its cfg in workdir).
     returns dict(out, states, distinct, rc, wall)"""
     workdir = Path(workdir)
@@ -47,7 +49,7 @@ def run_tlc(module_file, cfg_text, workdir, env=None, workers=1, timeout=600, ex
     e.update(env or {})
     t0 = time.time()
     try:
-        p = subprocess.run(java_cmd(mod, workdir, workers, extra, heap), cwd=workdir, env=e,
+        p = subprocess.run(java_cmd(mod, workdir, workers, extra, heap, xss=xss), cwd=workdir, env=e,
                            capture_output=True, text=True, timeout=timeout)
     except subprocess.TimeoutExpired:
         raise MachineryError(f"TLC timed out after {timeout}s on {mod}")
@@ -105,8 +107,16 @@ def trace_cfg(known_devs, eps="EpsDefault", invariants=()):
             "POSTCONDITION AllConsumed\n")
 
 
+def sexp_cfg(known_devs):
+    devs = ", ".join(f'"{d}"' for d in sorted(known_devs))
+    return ("SPECIFICATION Spec\n"
+            f"CONSTANT KnownDevs = {{{devs}}}\n"
+            "CHECK_DEADLOCK FALSE\n"
+            "POSTCONDITION AllConsumed\n")
+
+
 def validate_traces(trace_file, workdir, known_devs, module="MCTrace", shards=1, timeout=900,
-                    explain=False, eps="EpsDefault", n_hist=None):
+                    explain=False, eps="EpsDefault", n_hist=None, sparse=False):
     """Validate an ndjson file of histories; shard it over several JVMs.
     returns (verdicts: {id: (fail, known, consumed)}, explains, tlc_states, raw outputs)"""
     workdir = Path(workdir)
@@ -128,8 +138,8 @@ def validate_traces(trace_file, workdir, known_devs, module="MCTrace", shards=1,
         env = {"TRACE_FILE": str(tf)}
         if explain:
             env["EXPLAIN"] = "1"
-        r = run_tlc(SPEC_DIR / f"{module}.tla", trace_cfg(known_devs, eps), wd / "run", env=env, workers=1,
-                    timeout=timeout)
+        cfg = sexp_cfg(known_devs) if sparse else trace_cfg(known_devs, eps)
+        r = run_tlc(SPEC_DIR / f"{module}.tla", cfg, wd / "run", env=env, workers=1, timeout=timeout, xss="256m")
         return r, len(parts[i])
 
     with ThreadPoolExecutor(max_workers=shards) as ex:
@@ -138,7 +148,13 @@ def validate_traces(trace_file, workdir, known_devs, module="MCTrace", shards=1,
     for r, n in results:
         outs.append(r["out"])
         v = parse_verdicts(r["out"])
-        if len(v) != n or "Model checking completed. No error has been found." not in r["out"]:
+        complete = "Model checking completed. No error has been found." in r["out"]
+        if sparse:
+            # only rejected / deviating records print a VERDICT; completeness comes from CONSUMED
+            complete = complete and f'<<"CONSUMED", {n}>>' in r["out"]
+        elif len(v) != n:
+            complete = False
+        if not complete:
             raise MachineryError("trace validation did not complete:\n" + r["out"][-3000:])
         verdicts.update(v)
         explains.update(explain_blocks(r["out"]))
